@@ -348,7 +348,14 @@ func (s *Subscriber) OnSyncFinished() (<-chan SyncFinished, context.CancelFunc) 
 	// not reading the channel immediately.
 	cq := chanqueue.New[SyncFinished]()
 	ch := cq.In()
-	s.addEventChan <- ch
+	select {
+	case s.addEventChan <- ch:
+	case <-s.closing:
+		// The subscriber is closed and nothing reads addEventChan any more.
+		// Return a channel that is already closed instead of blocking forever.
+		close(ch)
+		return cq.Out(), func() {}
+	}
 
 	cncl := func() {
 		if ch == nil {
